@@ -137,8 +137,8 @@ fn read_all<R: std::io::Read + std::io::Seek>(mut it: LogIterator<R>) -> (Vec<En
             Ok(None) => return (es, "end".to_string()),
             Err(e) => {
                 let mut o = format!("err:{}", code(&e));
-                // experiment only (env C12_AGAIN=n): what a consumer sees if it keeps calling
-                // next() after an error; not part of the compared output of the check
+                // env C12_AGAIN=n (the check sets it, and the model driver prints the same): what a
+                // consumer sees if it keeps calling next() n more times after an error
                 if let Ok(n) = std::env::var("C12_AGAIN") {
                     let n: usize = n.parse().unwrap_or(0);
                     let mut extra = vec![];
